@@ -25,6 +25,7 @@ from harness.lib.core import Rng
 from harness.rigs import request as rreq
 
 DOCUMENTED = {"pending", "success", "failure", "unreachable"}
+CHECK_REQUESTS = False      # opt-in oracle of `_check_step` (set by C01's pair / variant units and by their replays)
 
 
 # ------------------------------------------------------------------------------------------------ scenario helpers
@@ -268,6 +269,17 @@ class Play:
         self._dirty = False              # steps taken since the scripted-agent statistics were last collected
 
 
+def _typed(x: Any) -> Any:
+    """structure with type names: `'1.2.3.4'` and `IPv4Address('1.2.3.4')` differ"""
+    if isinstance(x, dict):
+        return ("dict", sorted(((repr(k), _typed(v)) for k, v in x.items()), key=repr))
+    if isinstance(x, (list, tuple)):
+        return (type(x).__name__, [_typed(v) for v in x])
+    if isinstance(x, bool):       # AgentHistoryItem.request is validated by pydantic, which stores a bool as the int it equals
+        return ("int", repr(int(x)))
+    return (type(x).__name__, repr(x))
+
+
 def _check_step(env, p: Play, max_len: Optional[int], before: Tuple[int, Dict[str, int]], reward, terminated, truncated, obs, info,
                 op) -> None:
     g = env.game
@@ -301,6 +313,16 @@ def _check_step(env, p: Play, max_len: Optional[int], before: Tuple[int, Dict[st
         if getattr(it.response, "status", None) not in DOCUMENTED:
             p.fails.append({"kind": "response-without-status", "agent": name, "action": it.action, "response": repr(it.response)[:80],
                             "log": log})
+        if CHECK_REQUESTS:
+            # opt-in oracle: a handler never MUTATES the request it was given - the request stored in the history item is still the one
+            # `form_request` builds from the item's action and parameters (same structure, same types)
+            try:
+                again = ag.action_manager.form_request(action_identifier=it.action, action_options=it.parameters)
+                if _typed(again) != _typed(it.request):
+                    p.fails.append({"kind": "handler-mutated-its-request", "agent": name, "action": it.action, "formed": repr(again)[:200],
+                                    "stored": repr(it.request)[:200], "log": log})
+            except Exception:
+                pass
         if not isinstance(it.action, str) or not isinstance(it.parameters, dict):
             p.fails.append({"kind": "history-item-without-action", "agent": name, "log": log})
         tot = seq_sum([h.reward for h in ag.history if h.reward is not None])
